@@ -109,6 +109,7 @@ def h_ip4(v, body, child, parent):
 
 IP6EXT = {"plain": [], "hbh": [0], "rt": [43], "dst": [60], "frag": [44],
           "hbhdst": [0, 60], "nonext": [],
+          "dstbig": ["big"],
           "dstx20": [60] * 20, "dstx180": [60] * 180, "dstx1100": [60] * 1100, "dstx8000": [60] * 8000}
 
 
@@ -118,14 +119,16 @@ def h_ip6(v, body, child, parent):
   ext = []
   for i, t in enumerate(chain):
     nh = chain[i + 1] if i + 1 < len(chain) else last
-    if t == 44:
+    if t == "big":            # destination options header of the maximal length: 8 * (255 + 1) octets
+      ext.append(struct.pack("!BB", nh, 255) + (bytes([1, 253]) + b"\0" * 253) * 8 + bytes([1, 4, 0, 0, 0, 0]))
+    elif t == 44:
       ext.append(struct.pack("!BBHI", nh, 0, 0, 0x1234))
     elif t == 43:
       ext.append(struct.pack("!BBBBI", nh, 0, 2, 0, 0))
     else:
       ext.append(struct.pack("!BB", nh, 0) + bytes([1, 4, 0, 0, 0, 0]))     # PadN
   ext = b"".join(ext)
-  first = chain[0] if chain else last
+  first = (60 if chain[0] == "big" else chain[0]) if chain else last
   h = struct.pack("!IHBB", 6 << 28, len(ext) + len(body), first, 64)
   return h + IP6_SRC + IP6_DST + ext
 
@@ -162,6 +165,9 @@ TCPOPTS = {
   "mpdss": bytes([30, 20, 0x20, 0x05, 0, 0, 0, 1, 0, 0, 0, 2, 0, 0, 0, 3, 0, 4, 0, 0]),
   "unk": bytes([253, 4, 0xab, 0xcd]),
   "unkmax": bytes([253, 4, 0xab, 0xcd]) * 10,      # the longest possible header: data offset 15
+  # 40 bytes of known options: MSS, SACK-permitted, timestamps, window scale, NOP, SACK with two blocks, 2 NOPs
+  "optmax": bytes([2, 4, 5, 0xb4, 4, 2, 8, 10, 0, 0, 0, 1, 0, 0, 0, 2, 3, 3, 7, 1,
+                   5, 18, 0, 0, 0, 1, 0, 0, 0, 9, 0, 0, 0, 20, 0, 0, 0, 29, 1, 1]),
 }
 
 
@@ -244,6 +250,12 @@ def h_dhcp(v, body, child, parent):
   if v == "overload":         # option 52: more options in the sname and file fields
     return (_dhcp_fixed(2, bytes([12, 2]) + b"h1" + b"\xff", bytes([15, 7]) + b"example" + b"\xff") + magic +
             bytes([52, 1, 3, 53, 1, 2, 255]))
+  if v == "long":             # one option code in two parts, 400 bytes together (RFC 3396)
+    o = bytes([53, 1, 1, 43, 200]) + payload(200) + bytes([43, 200]) + payload(200) + b"\xff"
+    return _dhcp_fixed(1) + magic + o
+  if v == "longover":         # ... continued in the overloaded file field, 300 bytes together
+    return (_dhcp_fixed(1, b"", bytes([43, 100]) + payload(100) + b"\xff") + magic +
+            bytes([52, 1, 1, 43, 200]) + payload(200) + bytes([53, 1, 1, 255]))
   if v == "disc":
     o = bytes([53, 1, 1, 55, 4, 1, 3, 6, 15, 61, 7, 1]) + MAC_SRC + bytes([50, 4]) + IP4_SRC + b"\xff"
     return _dhcp_fixed(1) + magic + o
@@ -272,6 +284,13 @@ def h_dns(v, body, child, parent):
   if v == "resp":
     a = ptr + struct.pack("!HHIH", 1, 1, 300, 4) + IP4_DST
     return struct.pack("!HHHHHH", 0x1111, 0x8180, 1, 1, 0, 0) + q + a
+  if v == "txtlong":          # TXT record of two character-strings, 300 bytes of RDATA
+    txt = bytes([255]) + payload(255) + bytes([43]) + payload(43)
+    a = ptr + struct.pack("!HHIH", 16, 1, 300, len(txt)) + txt
+    return struct.pack("!HHHHHH", 0x1111, 0x8180, 1, 1, 0, 0) + q + a
+  if v == "many":             # 24 answers
+    a = b"".join(ptr + struct.pack("!HHIH", 1, 1, 300, 4) + bytes([10, 0, 1, i]) for i in range(24))
+    return struct.pack("!HHHHHH", 0x1111, 0x8180, 1, 24, 0, 0) + q + a
   if v == "multi":
     cn = _name("host") [:-1] + struct.pack("!H", 0xc010)          # host.example.com
     an = ptr + struct.pack("!HHIH", 5, 1, 300, len(cn)) + cn
@@ -290,6 +309,10 @@ def h_dns(v, body, child, parent):
 def h_rip(v, body, child, parent):
   if v == "req":
     return struct.pack("!BBH", 1, 2, 0) + struct.pack("!HHIIII", 0, 0, 0, 0, 0, 16)
+  if v == "full25":           # the largest RIP message: 25 entries
+    return struct.pack("!BBH", 2, 2, 0) + b"".join(
+      struct.pack("!HH", 2, i) + bytes([10, i, 0, 0, 255, 255, 0, 0]) + IP4_DST + struct.pack("!I", 1 + i % 15)
+      for i in range(25))
   e1 = struct.pack("!HH", 2, 0) + bytes([10, 1, 0, 0, 255, 255, 0, 0, 0, 0, 0, 0]) + struct.pack("!I", 1)
   e2 = struct.pack("!HH", 2, 5) + bytes([192, 168, 1, 0, 255, 255, 255, 0]) + IP4_DST + struct.pack("!I", 3)
   return struct.pack("!BBH", 2, 2, 0) + e1 + e2
@@ -313,6 +336,8 @@ def h_lldp(v, body, child, parent):
             _tlv(7, struct.pack("!HH", 0x14, 0x04)) +
             _tlv(8, bytes([5, 1]) + IP4_SRC + bytes([2]) + struct.pack("!I", 1) + bytes([0])) +
             _tlv(127, bytes([0x00, 0x26, 0xe1, 0]) + b"dpid"))
+  if v == "long":             # information strings of 300 and 511 (the maximum) octets
+    more = _tlv(6, payload(300)) + _tlv(127, bytes([0x00, 0x26, 0xe1, 7]) + payload(507))
   return ch + port + ttl + more + _tlv(0, b"")
 
 
